@@ -80,6 +80,12 @@ CHECKS["C14"] = dict(
     design_ref="DESIGN.md 6 C14",
     note="Trusted: the volatile-store semantics the zeroize crate relies on (a volatile store in the IR is emitted as a store); stack copies left behind by moves are outside the property (and outside what the type system lets the crates control). Bounds: batch sizes n as listed (the loops are uniform in n; the allocation pattern - one scratch / digit buffer of n elements - is the same for every n >= 1, larger n not run); serial backend copy of Straus (the AVX2/IFMA copy uses the Zeroizing<Vec> wrapper and is covered when listed in evidence). Scalar kernels inside batch_invert are summarised as havoc (fresh outputs), which over-approximates dependence.",
     technique="symbolic execution of rustc-emitted LLVM IR with a byte-precise memory model (llsym), erasure goals discharged by the SMT solver / constant folding; dealloc hook = the instrumenting allocator of the property's observe_at")
+CHECKS["C16"] = dict(engine="kani",
+    category="model_checking",
+    text="Kani/CBMC model-checks the real serde impls - the hand-written visitors of Scalar, EdwardsPoint, RistrettoPoint, the compressed types, SigningKey, VerifyingKey and the derived impls of MontgomeryPoint, x25519 PublicKey and StaticSecret - against two model data formats (compact: tuples are n raw bytes, input may end early, byte strings with attacker-chosen length; self-describing: sequences of input-controlled length, unconsumed elements rejected): for ALL values the serialised form is exactly the canonical 32-byte encoding (tuple for the curve/x25519 types, byte string for the ed25519 keys; VerifyingKey emits its stored bytes, StaticSecret its unclamped bytes), and for ALL inputs (any bytes, any delivered length 0..=40, both formats) deserialisation succeeds exactly when the framing is right and the native decoder accepts, returning the native decoder's value - so non-canonical scalars, invalid point encodings, short and over-long inputs are rejected.",
+    design_ref="DESIGN.md 6 C16",
+    note="Trusted: the model formats stand for bincode / serde_json (external crates; their framing behaviour is modelled, not verified); field arithmetic behind compress/decompress and SHA-512/basepoint multiplication behind SigningKey::from_bytes are replaced by model functions shared with the reference (their meaning is C03/C06/C08), Scalar canonicity by the exact predicate bytes < l (equivalence: C02). ed25519::Signature's serde impl lives in the external `ed25519` crate and is out of scope. deserialise(serialise(v)) = v then follows from decode(encode(v)) = v of C03/C06. Bounds: delivered length <= 40 elements (covers short, exact, over-long; the visitors' behaviour does not depend on how many extra elements follow beyond the first), Kani unwinding assertions on.",
+    technique="Kani/CBMC bounded model checking of the real Rust serde impls against model Serializer/Deserializer formats, model functions (stubs) for arithmetic")
 NOT_YET = {}
 for i in range(2, 18):
     NOT_YET["C%02d" % i] = "check under construction in this round (see DESIGN.md 6 for the planned solver-based check); not claimed until it runs green"
